@@ -373,6 +373,7 @@ def write_evidence(ctx, obs, t0, tgen, tsolve, exit_code, lines, unknown, vanish
         'discharged': discharged,
         'checker_cmd': './check %s --tier %s' % (pid, ctx.tier),
         'trusted_base': list(ctx_trusted(ctx)),
+        'trusted_contracts_used': sorted(a for a in col.assumed if a in trusted_contracts(ctx)),
         'by_kind': dict(by_kind),
         'by_backend': dict(by_backend),
         'by_status': {str(k): v for k, v in by_status.items()},
@@ -409,14 +410,43 @@ def write_evidence(ctx, obs, t0, tgen, tsolve, exit_code, lines, unknown, vanish
         'seed': ctx.seed,
         'level': level,
         'coverage': cov,
-        'assumptions': ctx.assumptions + sorted('assumed contract (proved where claimed, else trusted): ' + a
-                                                for a in col.assumed if a not in col.functions),
+        'assumptions': ctx.assumptions + assumed_lines(ctx, col),
         'wall_s': round(time.time() - t0, 2),
         'violations': sum(1 for ln in lines if ln.startswith('VIOLATION')),
     }
     os.makedirs(os.path.join(ROOT, 'evidence'), exist_ok=True)
     with open(os.path.join(ROOT, 'evidence', pid + '.json'), 'w') as f:
         json.dump(doc, f, indent=1, default=str)
+
+
+def trusted_contracts(ctx):
+    "target -> reason for every contract marked trusted in the sidecar files"
+    out = {}
+    for tgt, cons in ctx.specs.contracts.items():
+        for c in cons:
+            if c.opts.get('trusted'):
+                out[tgt] = c.opts['trusted']
+    return out
+
+
+def assumed_lines(ctx, col):
+    """what the proofs of this run took on trust at call sites: contracts that are themselves verified (under the check of
+    the property they are tagged with), trusted contracts (never verified: listed with the reason), and model entries"""
+    tr = trusted_contracts(ctx)
+    out = []
+    for a in sorted(col.assumed):
+        if a in col.functions:
+            continue
+        if a in tr:
+            out.append('TRUSTED contract (not verified; bounded stand-in only): %s - %s' % (a, tr[a]))
+        elif a.endswith('(model)') or a.startswith('E.rounds'):
+            out.append('model of the election data structures (assumed; select model checked by conformance obligations): ' + a)
+        elif a in ctx.specs.contracts:
+            props = sorted(set().union(*[c.all_props for c in ctx.specs.contracts[a]]))
+            out.append('contract used at call sites, verified on its own under %s: %s' % ('/'.join(props), a))
+        else:
+            out.append('assumed at call sites: ' + a)
+    return out
 
 
 def ctx_trusted(ctx):
